@@ -282,8 +282,12 @@ struct StreamEngine : Engine {
 			else
 				nlines = (size_t)r.range(3 * NL, 8 * NL);
 			unsigned lc = (unsigned)r.below(100);
-			maxlen = lc < 50 ? (size_t)r.range(0, SIM_LL) : lc < 80 ? (size_t)r.range(0, 2 * SIM_LL + 2) :
-				 lc < 92 ? (size_t)r.range(CH - 1, 2 * CH + 1) : (size_t)r.range(0, WB / 2);
+			maxlen = lc < 45 ? (size_t)r.range(0, SIM_LL) : lc < 70 ? (size_t)r.range(0, 2 * SIM_LL + 2) :
+				 lc < 80 ? (size_t)r.range(CH - 1, 2 * CH + 1) : lc < 88 ? (size_t)r.range(0, WB / 2) :
+				 lc < 94 ? (size_t)r.range(WB - CH - 2, WB + CH + 2) :	/* around the window size */
+				 (size_t)r.range(WB, 5 * WB);			/* several doublings of the window */
+			if (maxlen > WB / 2 && nlines > 12)
+				nlines = (size_t)r.range(1, 12);
 		} else {
 			if (vc < 55) {
 				nlines = (size_t)r.range(0, 6);
@@ -381,6 +385,31 @@ struct StreamEngine : Engine {
 		return p;
 	}
 
+	/* the shipped window: beyond 16 MiB in one line, and beyond 16 MiB before 16384 lines */
+	size_t fixed_count(const Config &cfg) override { return WB > 4096 ? (cfg.tier == "thorough" ? 3 : 2) : 0; }
+	Plan fixed_plan(size_t i, const Config &) override
+	{
+		Plan p;
+		p.argv = {"dconv", "-S", "-f", "%d.%m.%Y"};
+		p.par["model"] = "dconv-dmy";
+		p.has_input = true;
+		if (i == 0) {
+			p.input = "short 2012-01-01 line\n" + std::string(WB + WB / 16, 'z') + " 2012-02-03 \nabc";
+		} else if (i == 1) {
+			std::string l = std::string(2040, 'y') + "\n";
+			for (int k = 0; k < 20000; k++)
+				p.input += l;
+			p.input += "2012-03-04\n";
+		} else {
+			p.input = std::string(2 * WB + 100, 'q') + " 2012-05-06";	/* two doublings, unterminated */
+		}
+		Op o;
+		o.kind = "rd";
+		o.a = {RD_MAX, (int64_t)CH, 0};
+		p.sched.push_back(o);
+		return p;
+	}
+
 	/* ---- T(c): one-line incarnation, memoised ---- */
 	bool single(const Plan &base, const std::string &c, Stats &st, std::string &out, int &status, std::string &why)
 	{
@@ -405,7 +434,10 @@ struct StreamEngine : Engine {
 		/* a content that itself ends in CR is fed with a CRLF terminator, so that the reader's
 		 * CRLF handling takes the terminator and leaves the content alone */
 		q.input = c + (!c.empty() && c.back() == '\r' ? "\r\n" : "\n");
-		RunResult r = run_plan(q);
+		Limits lim;
+		lim.cpu_s = q.input.size() > (1u << 20) ? 30.0 : 3.0;
+		lim.max_events = 3000000 + q.input.size() * 4;
+		RunResult r = run_plan(q, lim);
 		st.add_ref(r);
 		if (r.crashed() || r.flags) {
 			why = "one-line run of " + cquote(c, 60) + ": " + r.status_str() + " " + r.note + " " + asan_summary(r.err);
@@ -480,7 +512,7 @@ struct StreamEngine : Engine {
 		v.predicate = predicates(p);
 		bool fault = p.par.count("fault") != 0;
 		Limits lim;
-		lim.cpu_s = p.input.size() > (1u << 20) ? 20.0 : 3.0;
+		lim.cpu_s = p.input.size() > (1u << 20) ? 30.0 : 3.0;
 		lim.max_events = 3000000 + p.input.size() * 4;
 		RunResult r = run_plan(p, lim);
 		st.add_probes(r);
